@@ -134,10 +134,15 @@ type dcase struct {
 	v      variant
 	size   int64
 	fb     string
+	rep    int
 }
 
 func runDirected(dc dcase) {
 	id := fmt.Sprintf("D/%s/%s/size=%d/fb=%s", dc.window, dc.v.name, dc.size, dc.fb)
+	base := id
+	if dc.rep > 0 {
+		id += fmt.Sprintf("/rep=%d", dc.rep)
+	}
 	if !hk.Want(id) {
 		return
 	}
@@ -355,9 +360,9 @@ func runDirected(dc dcase) {
 		return
 	}
 	fbOn := dc.fb == "on" && dc.size > 0 && dc.v.kind == "message"
-	m := omode{kind: dc.v.kind, alive: true, fbExpected: fbOn, fbPossible: fbOn, atMostOnce: (dc.v.kind == "event" || dc.v.kind == "log") && dc.size > 0}
+	m := omode{kind: dc.v.kind, alive: true, fbExpected: fbOn, fbPossible: fbOn, atMostOnce: (dc.v.kind == "event" || dc.v.kind == "log") && dc.size > 0 && !strictBroadcast}
 	st := judge(c, m, r)
-	key := id
+	key := base
 	if st.refused > 0 || st.viaFB > 0 {
 		key += "/refusal"
 	}
@@ -377,6 +382,7 @@ type mcase struct {
 	call   bool
 	proc   bool
 	size   int64 // 0 = practically unbounded (a unique large size identifies the queue)
+	rep    int
 }
 
 func runMetaDirected(mc mcase) {
@@ -387,6 +393,10 @@ func runMetaDirected(mc mcase) {
 		vn = "msg-alias-proc"
 	}
 	id := fmt.Sprintf("D/meta/%s/%s/size=%d", mc.window, vn, mc.size)
+	base := id
+	if mc.rep > 0 {
+		id += fmt.Sprintf("/rep=%d", mc.rep)
+	}
 	if !hk.Want(id) {
 		return
 	}
@@ -559,7 +569,7 @@ func runMetaDirected(mc mcase) {
 		kind = "metacall"
 	}
 	st := judge(c, omode{kind: kind, alive: true}, r)
-	key := id
+	key := base
 	if st.refused > 0 {
 		key += "/refusal"
 	}
@@ -572,25 +582,29 @@ func runMetaDirected(mc mcase) {
 }
 
 func runAllDirected() {
+	// the schedules are fixed by the gates; the thorough tier repeats them (other goroutine timing around the gates)
+	reps := hk.Pick(1, 4)
 	windows := []string{"tosleep", "recheck", "recheck-enter", "reacquire", "swapped-sleep", "swapped-overtaken"}
-	for _, w := range windows {
-		for _, v := range dVariants {
-			for _, sz := range []int64{0, 1, 2} {
-				fbs := []string{"off"}
-				if sz > 0 && v.kind == "message" && (v.name == "msg-pid" || v.name == "msg-name" || v.name == "msg-alias" || v.name == "msg-pid-x2") {
-					fbs = []string{"off", "on"}
-				}
-				for _, fb := range fbs {
-					runDirected(dcase{window: w, v: v, size: sz, fb: fb})
+	for rep := 0; rep < reps; rep++ {
+		for _, w := range windows {
+			for _, v := range dVariants {
+				for _, sz := range []int64{0, 1, 2} {
+					fbs := []string{"off"}
+					if sz > 0 && v.kind == "message" && (v.name == "msg-pid" || v.name == "msg-name" || v.name == "msg-alias" || v.name == "msg-pid-x2") {
+						fbs = []string{"off", "on"}
+					}
+					for _, fb := range fbs {
+						runDirected(dcase{window: w, v: v, size: sz, fb: fb, rep: rep})
+					}
 				}
 			}
 		}
-	}
-	for _, w := range []string{"tosleep", "recheck", "swapped-sleep", "swapped-overtaken"} {
-		for _, sz := range []int64{0, 1} {
-			runMetaDirected(mcase{window: w, size: sz})
-			runMetaDirected(mcase{window: w, proc: true, size: sz})
-			runMetaDirected(mcase{window: w, call: true, size: sz})
+		for _, w := range []string{"tosleep", "recheck", "swapped-sleep", "swapped-overtaken"} {
+			for _, sz := range []int64{0, 1} {
+				runMetaDirected(mcase{window: w, size: sz, rep: rep})
+				runMetaDirected(mcase{window: w, proc: true, size: sz, rep: rep})
+				runMetaDirected(mcase{window: w, call: true, size: sz, rep: rep})
+			}
 		}
 	}
 }
